@@ -10,6 +10,7 @@ from ..generic_instructions import ArtificialInstruction
 from .instructions import Andr, Orr, Xorr, Subr, Addi, Slli, Srli
 from .instructions import Lw, Sw, Blt, Bgt, Bge, Beq, Bne, Ble, Blr
 from .instructions import Bgtu, Bltu, Bgeu, Bleu
+from .instructions import canonical_operand
 
 
 class RegisterSet(set):
@@ -806,6 +807,8 @@ def pattern_stri32_addi32(context, tree, c0, c1):
 @rvcisa.pattern("stm", "CJMPI16(reg, reg)", size=2)
 @rvcisa.pattern("stm", "CJMPI8(reg, reg)", size=2)
 def pattern_cjmp(context, tree, c0, c1):
+    c0 = canonical_operand(context, tree, c0)
+    c1 = canonical_operand(context, tree, c1)
     op, yes_label, no_label = tree.value
     opnames = {"<": Blt, ">": Bgt, "==": Beq, "!=": Bne, ">=": Bge, "<=": Ble}
     Bop = opnames[op]
@@ -818,6 +821,8 @@ def pattern_cjmp(context, tree, c0, c1):
 @rvcisa.pattern("stm", "CJMPU16(reg, reg)", size=2)
 @rvcisa.pattern("stm", "CJMPU32(reg, reg)", size=2)
 def pattern_cjmpu(context, tree, c0, c1):
+    c0 = canonical_operand(context, tree, c0)
+    c1 = canonical_operand(context, tree, c1)
     op, yes_label, no_label = tree.value
     opnames = {
         "<": Bltu,
